@@ -133,6 +133,24 @@ func (jenny *Builder) generateBuilder(context languages.Context, builder ast.Bui
 		RenderAsBytes("builders/builder.tmpl", map[string]any{
 			"Builder":              builder,
 			"BuilderSignatureType": buildObjectSignature,
-			"ObjectName":           fullObjectName,
+			"ObjectName":           jenny.constructibleName(context, builder, fullObjectName),
 		})
+}
+
+// constructibleName returns the name of the class to instantiate for the builder's object: an alias is emitted as a
+// `typing.TypeAlias` holding a forward reference (a string), which can not be called; the aliased struct can.
+func (jenny *Builder) constructibleName(context languages.Context, builder ast.Builder, fallback string) string {
+	typeDef := builder.For.Type
+	name := fallback
+	for typeDef.IsRef() {
+		referred, found := context.LocateObject(typeDef.AsRef().ReferredPkg, typeDef.AsRef().ReferredType)
+		if !found {
+			return fallback
+		}
+
+		name = jenny.typeFormatter.formatRef(referred.SelfRef)
+		typeDef = referred.Type
+	}
+
+	return name
 }
